@@ -6,18 +6,19 @@ CONSTANTS TraceFile
 Universe == {"127.0.0.1", "127.0.0.2", "127.0.0.3", "127.0.0.4"}
 Trace == ndJsonDeserialize(TraceFile)
 VARIABLES l, mon, au
-AuInit == [file |-> [enable |-> FALSE, list |-> {}], src |-> <<>>, viol |-> {}]
+AuInit == [file |-> [enable |-> FALSE, list |-> {}], src |-> <<>>, univ |-> Universe, viol |-> {}]
 Init == l = 1 /\ mon = MonInit /\ au = AuInit
 
 Step(a, m, e) ==
   CASE e.ev = "begin" -> AuInit
+    [] e.ev = "authuniverse" -> [a EXCEPT !.univ = SeqRange(e.slots)]      \* the addresses this scenario tries
     [] e.ev = "authfile" -> [a EXCEPT !.file = Edit(a.file, e.cls, e.num = 1, SeqRange(e.slots))]
     [] e.ev = "authsettled" ->
-         IF SeqRange(e.slots) = Admitted(a.file, Universe) THEN a
+         IF SeqRange(e.slots) = Admitted(a.file, a.univ) THEN a
          ELSE [a EXCEPT !.viol = @ \cup {<<"C18", "", 0, "admitted-set-differs-from-file">>}]
     [] e.ev = "open" /\ e.txt # "" -> [a EXCEPT !.src = Put(@, e.c, e.txt)]
     [] e.ev = "quiesce" ->
-         LET adm == Admitted(a.file, Universe)
+         LET adm == Admitted(a.file, a.univ)
              bad == { c \in DOMAIN a.src :
                         IF a.src[c] \in adm
                         THEN Len(Got(m, c)) # Len(Sent(m, c)) \/ Cst(m, c) # "open"
